@@ -33,4 +33,49 @@ func init() {
 		}
 		props["C17"] = p
 	}
+
+	// ---- C13 ----
+	{
+		p := &Prop{ID: "C13", Outside: []string{
+			"keys longer than the stated bound (every accepted key is shorter)",
+			"non-ASCII bytes in keys of case-insensitive sections (case folding is modelled for ASCII only; such paths are cut by a recorded assumption)",
+			"mappings nested below matrix values deeper than the skeleton's",
+			"how yaml.v3 turns bytes into mapping nodes (anchors, merge keys)",
+		}}
+		for L := 1; L <= 19; L++ {
+			p.Quick = append(p.Quick, HRun{Entry: "HarnessC13Unknown", Args: []int64{int64(L)}, Bound: "every mapping of the skeleton x all 256^L keys of length L", Require: []string{"reported"}})
+		}
+		for L := 1; L <= 3; L++ {
+			p.Quick = append(p.Quick, HRun{Entry: "HarnessC13DupFold", Args: []int64{int64(L)}, Bound: "two symbolic keys of length L in every user-keyed mapping", Require: []string{"dup-reported", "dup-silent"}})
+		}
+		p.Quick = append(p.Quick, HRun{Entry: "HarnessC13Missing", Bound: "each mandatory key removed from each mapping that has it", Require: []string{"baseline", "removed"}})
+		for L := 1; L <= 24; L++ {
+			p.Thorough = append(p.Thorough, HRun{Entry: "HarnessC13Unknown", Args: []int64{int64(L)}, Bound: "every mapping of the skeleton x all 256^L keys of length L", Require: []string{"reported"}})
+		}
+		for L := 1; L <= 6; L++ {
+			p.Thorough = append(p.Thorough, HRun{Entry: "HarnessC13DupFold", Args: []int64{int64(L)}, Bound: "two symbolic keys of length L in every user-keyed mapping", Require: []string{"dup-reported", "dup-silent"}})
+		}
+		p.Thorough = append(p.Thorough, HRun{Entry: "HarnessC13Missing", Bound: "each mandatory key removed from each mapping that has it", Require: []string{"baseline", "removed"}})
+		props["C13"] = p
+	}
+	// ---- C03 ----
+	{
+		p := &Prop{ID: "C03", Outside: []string{
+			"values spanning several lines, YAML anchors/aliases",
+			"positions only reachable through keys longer than 19 bytes (none exist) or below mappings absent from the skeleton",
+			"user-chosen keys (env names, with/secrets/outputs ids, job and service ids) are represented by two lower-case letters",
+			"sibling configurations are explored for pairs of keys (thorough tier), not triples",
+		}}
+		for sh := 0; sh < 4; sh++ {
+			p.Quick = append(p.Quick, HRun{Entry: "HarnessC03Key", Args: []int64{19, int64(sh), 0}, Bound: "every mapping x symbolic key of length 1..19 (all byte values) x value shape", Require: []string{"accepted-position"}})
+			p.Quick = append(p.Quick, HRun{Entry: "HarnessC03Replace", Args: []int64{int64(sh)}, Bound: "every existing entry of every mapping x value shape", Require: []string{"accepted-position"}})
+		}
+		p.Quick = append(p.Quick, HRun{Entry: "HarnessC03Skeleton", Bound: "every scalar value of the skeleton", Require: []string{"site"}})
+		p.Quick = append(p.Quick, HRun{Entry: "HarnessC03Key", Args: []int64{11, 1, 1}, Bound: "pairs of symbolic sibling keys of length 1..11, sequence-valued", Require: []string{"accepted-position"}})
+		p.Thorough = append(p.Thorough, p.Quick[:len(p.Quick)-1]...)
+		for sh := 0; sh < 4; sh++ {
+			p.Thorough = append(p.Thorough, HRun{Entry: "HarnessC03Key", Args: []int64{19, int64(sh), 1}, Bound: "pairs of symbolic sibling keys of length 1..19 x value shape", Require: []string{"accepted-position"}})
+		}
+		props["C03"] = p
+	}
 }
